@@ -5,6 +5,9 @@ V = os.path.dirname(os.path.dirname(os.path.abspath(__file__)))
 sys.path.insert(0, V)
 from vp import registry
 table = json.load(open(os.path.join(V, 'tools', 'manifest_table.json')))
+import glob
+for f in sorted(glob.glob(os.path.join(V, 'tools', 'manifest.d', '*.json'))):
+    table.update(json.load(open(f)))
 props = [json.loads(l) for l in open(os.path.join(V, 'properties.jsonl'))]
 checks, na = [], []
 for p in props:
